@@ -150,7 +150,7 @@ class Ctx:
         `required` names theorems that must be present."""
         module = module or ("WaVerif.Props." + self.prop)
         src = os.path.join(LEAN, module.replace(".", "/") + ".lean")
-        bad = scan_forbidden(LEAN)
+        bad = scan_forbidden(LEAN, module)
         if bad:
             self.proof["broken"].append({"theorem": "*", "why": "forbidden construct: %s" % bad[:3]})
         ok, log = self.lake_build([module])
@@ -316,17 +316,31 @@ def strip_lean_comments(s):
     return s
 
 
-def scan_forbidden(root):
+def import_closure(root, module):
+    """files of this project reachable from `module` through `import WaVerif.…` lines"""
+    seen, todo = {}, [module]
+    while todo:
+        m = todo.pop()
+        if m in seen:
+            continue
+        p = os.path.join(root, m.replace(".", "/") + ".lean")
+        if not os.path.exists(p):
+            continue
+        seen[m] = p
+        for im in re.findall(r"^\s*(?:public\s+)?import\s+(WaVerif[\w.]*)", open(p).read(), re.M):
+            todo.append(im)
+    return seen
+
+
+def scan_forbidden(root, module):
+    """forbidden constructs (outside comments/strings) in the import closure of `module`"""
     hits = []
-    for dp, dn, fn in os.walk(os.path.join(root, "WaVerif")):
-        for f in fn:
-            if f.endswith(".lean"):
-                p = os.path.join(dp, f)
-                if p.endswith("Base/AuditCmd.lean"):
-                    continue
-                m = FORBIDDEN.search(strip_lean_comments(open(p).read()))
-                if m:
-                    hits.append("%s: %s" % (os.path.relpath(p, root), m.group(0).strip()))
+    for m, p in sorted(import_closure(root, module).items()):
+        if p.endswith("Base/AuditCmd.lean"):
+            continue
+        mm = FORBIDDEN.search(strip_lean_comments(open(p).read()))
+        if mm:
+            hits.append("%s: %s" % (os.path.relpath(p, root), mm.group(0).strip()))
     return hits
 
 
